@@ -34,6 +34,40 @@ def validate(v, d, scen, traces):
     return acc
 
 
+def keys_through_keeper(v, d, seed, tier):
+    """C06 (and the keeper half of C05): the real wallet behind the real keeper.  Request sequences with restarts; the
+    ordinal and key in the wallet, in the keeper's space id and in the plot file names must agree, a restarted node
+    must recognise every plot file again, and every space must sign under its key.  Only those aspects are reported
+    here; the capacity contract itself belongs to C15."""
+    drv = vlib.build("capdrv")
+    behs, w = vlib.tlc_generate(d, "CapacityGen.tla", "CapacityGen.cfg", 40 if tier == "quick" else 600, 10, seed + 99)
+    scen = [dict(sc=50000 + i, seed=seed * 100003 + i, steps=b, opt=dict(realwallet=True)) for i, b in enumerate(vlib.dedup(behs))]
+    sf, tf = os.path.join(d, "rw.json"), os.path.join(d, "rw.ndjson")
+    json.dump(scen, open(sf, "w"))
+    vlib.run_driver(drv, sf, tf, ["-workers", str(min(vlib.NCPU, 12)), "-stall", "60"], timeout=1200)
+    traces = vlib.read_traces(tf)
+    dead = [t for t in traces if t.get("dead")]
+    if dead:
+        raise vlib.Machinery("driver could not run %d scenarios: %s" % (len(dead), dead[0].get("note")))
+    acc, hw, stats = vlib.tlc_validate(d, "CapacityTrace.tla", "CapacityTrace.cfg", [t["ev"] for t in traces], timeout=1500)
+    v.cov["traces_validated_against_impl"] += len(traces)
+    for i, t in enumerate(traces):
+        if i in acc:
+            continue
+        k = hw[i]
+        e = t["ev"][k] if k < len(t["ev"]) else {}
+        d_ = "scenario %d (real wallet behind the real keeper): step %d %s: selection %s, index %s, files %s, signing %s" % (
+            t["sc"], k + 1, desc(e), [(s["o"], s["bl"]) for s in e.get("sel", [])][:10], [(s["o"], s["bl"]) for s in e.get("idx", [])][:10],
+            [(s["o"], s["bl"]) for s in e.get("files", [])][:10], e.get("signbad") or e.get("signok"))
+        if e.get("a") == "Restart" or e.get("signok") is False or e.get("walleterr"):
+            v.classify(dict(cause="keys_through_keeper", action=e.get("a")), d_, dict(scenario=scen[i], rejected_step=k + 1, event=e))
+        else:
+            log("NOTE (belongs to C15): " + d_[:300])
+    log("real wallet behind the real keeper: %d request sequences with restarts" % len(scen))
+    v.cov["keeper_with_real_wallet_scenarios"] = len(scen)
+    return len(scen)
+
+
 def run(prop, tier, seed):
     v = vlib.Verdict(prop, tier, seed)
     d = vlib.scratch("c15-")
@@ -50,6 +84,10 @@ def run(prop, tier, seed):
         behs += b
     behs = vlib.dedup(behs)
     scen = [dict(sc=i + 1, seed=seed * 100003 + i, steps=b) for i, b in enumerate(behs)]
+    # every fourth sequence runs with the real wallet (real keystore manager on a real store, reopened at every
+    # Restart) behind the keeper: ordinals and keys of wallet, keeper and file names must agree, spaces must sign
+    for s_ in scen[::4]:
+        s_["opt"] = dict(realwallet=True)
     log("generated %d request sequences" % len(scen))
     sf, tf = os.path.join(d, "scen.json"), os.path.join(d, "trace.ndjson")
     total = 0
